@@ -4,6 +4,7 @@ import (
 	"encoding/json"
 	"fmt"
 	"io"
+	"os"
 	"sort"
 
 	"github.com/semihalev/twig"
@@ -241,6 +242,25 @@ func (propC01) Run(scI interface{}) *Outcome {
 			if got.Key() != want.Key() {
 				return fail("O1-pristine-replica", fmt.Sprintf("render differs from fresh engine: history=%s fresh=%s", got.Class, want.Class),
 					fmt.Sprintf("op #%d %s engine %d template %q\n history engine: %s\n fresh engine:   %s", oi, op.K, op.E, pr.Main, got, want))
+			}
+			// O3: a sample is also rendered by a real fresh process built from the uninstrumented tree
+			if os.Getenv("VERIF_ONESHOT") != "" && w.Choose(48, "o3.sample") == 0 {
+				all := ""
+				for _, src := range ce.cur {
+					all += src
+				}
+				if !reUsesMaps.MatchString(all) {
+					fresh, ok := runOneshot(&oneshotCase{Templates: ce.cur, Debug: ce.debug, Main: pr.Main, Ctx: pr.Ctx})
+					if !ok {
+						o.Probes["o3_could_not_run"]++
+					} else {
+						o.Probes["o3_fresh_process_renders"]++
+						if fresh.Key() != want.Key() {
+							return fail("O3-fresh-process", fmt.Sprintf("fresh process (uninstrumented tree) disagrees: process=%s replica=%s", fresh.Class, want.Class),
+								fmt.Sprintf("op #%d template %q\n fresh process: %s\n replica:       %s", oi, pr.Main, fresh, want))
+						}
+					}
+				}
 			}
 		case "parse":
 			src := pr.Templates[len(pr.Templates)-1].Src()
